@@ -593,6 +593,33 @@ func (r *e1run) checkC03(si, k int) {
 	if pl.ServerControl.CanSkipUntilNS == nil || *pl.ServerControl.CanSkipUntilNS < 6*int64(pl.TargetDuration)*1_000_000_000 {
 		r.add("C03", "can-skip-until", "stream %s: CAN-SKIP-UNTIL is less than six times TARGETDURATION %d", s.id, pl.TargetDuration)
 	}
+	if r.props == nil || r.props["C03"] {
+		// the header of a Playlist Delta Update of the same instant obeys the same clauses (it is the same header)
+		for _, skip := range []string{"YES", "v2"} {
+			rr := r.get(mediaPlaylistPath(s.id) + "?_HLS_skip=" + skip)
+			if rr.Status != 200 {
+				continue
+			}
+			dp, _, _ := m3u.Parse(rr.Body.Bytes(), m3u.Options{})
+			if dp == nil || dp.ServerControl == nil || dp.PartTargetNS == nil {
+				r.add("C03", "delta-ll-tags-missing", "stream %s: the delta update (_HLS_skip=%s) of write %d lacks EXT-X-PART-INF or EXT-X-SERVER-CONTROL", s.id, skip, w)
+				continue
+			}
+			if dp.TargetDuration != pl.TargetDuration || *dp.PartTargetNS != pt {
+				r.add("C03", "delta-header-differs", "stream %s: the delta update (_HLS_skip=%s) of write %d announces TARGETDURATION %d / PART-TARGET %d ns, the full playlist of the same instant %d / %d ns", s.id, skip, w, dp.TargetDuration, *dp.PartTargetNS, pl.TargetDuration, pt)
+			}
+			if dp.ServerControl.CanSkipUntilNS == nil || *dp.ServerControl.CanSkipUntilNS < 6*int64(dp.TargetDuration)*1_000_000_000 {
+				v := int64(-1)
+				if dp.ServerControl.CanSkipUntilNS != nil {
+					v = *dp.ServerControl.CanSkipUntilNS
+				}
+				r.add("C03", "can-skip-until/delta", "stream %s: in the delta update (_HLS_skip=%s) of write %d CAN-SKIP-UNTIL is %d ns, less than six times TARGETDURATION %d", s.id, skip, w, v, dp.TargetDuration)
+			}
+			if dp.ServerControl.PartHoldBackNS == nil || *dp.ServerControl.PartHoldBackNS < 2*(*dp.PartTargetNS) {
+				r.add("C03", "part-hold-back/delta", "stream %s: in the delta update (_HLS_skip=%s) of write %d PART-HOLD-BACK is less than twice PART-TARGET", s.id, skip, w)
+			}
+		}
+	}
 }
 
 // ---- cross-stream agreement (C04 last sentence, C02 "all streams cut at the same instant", C03 for renditions) ----
